@@ -271,10 +271,10 @@ theorem propTick_spec {n : Net} {st : HState} (slot clock : Nat) (r1 : FetchRes)
       · simp only [propTick]; exact hlast hg
       · refine ⟨[], (propFetch ⟨store, false, fc, fn, false⟩ (n.epoch slot) r1).2, _, h, ?_, NoExec.nil, propFetch_noExec _ _ _⟩
         simp [propTick]
-  · have hg := propFetch_good (st := ⟨store, false, fc, fn, false⟩) (n.epoch slot) r1 h
+  · have hg := propFetch_good (st := ⟨store, r1.failed, fc, fn, false⟩) (n.epoch slot) r1 h
     constructor
     · simp only [propTick]; exact hlast hg
-    · refine ⟨(propFetch ⟨store, false, fc, fn, false⟩ (n.epoch slot) r1).2, [], _, hg, ?_, propFetch_noExec _ _ _, NoExec.nil⟩
+    · refine ⟨(propFetch ⟨store, r1.failed, fc, fn, false⟩ (n.epoch slot) r1).2, [], _, hg, ?_, propFetch_noExec _ _ _, NoExec.nil⟩
       simp [propTick]
 
 theorem propStep_good {n : Net} {st : HState} (e : Event) (h : Good .prop st) : Good .prop (propStep n st e).1 := by
